@@ -122,6 +122,10 @@ func decorate(r *rand.Rand, gp *GenParams, n *STree, isRoot bool, lenMode, supMo
 		n.Cm = append(n.Cm, fmt.Sprintf("c%d", r.Intn(100)))
 		if r.Float64() < 0.3 {
 			n.Cm = append(n.Cm, fmt.Sprintf("&k=%d", r.Intn(100)))
+			if r.Float64() < 0.5 {
+				// three comments: the slice built by successive appends has spare capacity
+				n.Cm = append(n.Cm, fmt.Sprintf("third%d", r.Intn(100)))
+			}
 		}
 	}
 	if !isRoot && n.Len != NILU && r.Float64() < gp.Comments {
